@@ -387,6 +387,9 @@ func (ck *checker) evalSet(e *evaluator, space string, rs codespace.Set) {
 		sp, _, _ := strings.Cut(space, ":")
 		r.Counter("executions_" + sp).Add(e.t.evals)
 		r.Counter("valid_sets_" + sp).Add(1)
+		if sp == "S5" {
+			r.Counter("executions_" + space).Add(e.t.evals)
+		}
 	}
 	for n := 1; n <= 4; n++ {
 		if v := e.t.valid[n]; v > 0 {
@@ -433,6 +436,7 @@ func (e *evaluator) run() {
 	}
 	e.codec = codec
 	r.Outcome("set-accepted")
+	r.Outcome(treeSizeClass(codec.VerifNumNodes())) // reported only, never judged
 	if len(rs) >= 2 {
 		r.DistinctS(rs.Key())
 	}
@@ -720,7 +724,7 @@ func Run(tier string) int {
 	}
 	r := ev.New("C12", tier, "exploration", budget)
 	ck := newChecker(r)
-	r.Rule("a case is one set of code space ranges; for every set the reference model decides validity (NewCodec must agree) and, for valid sets, one execution = one input string (every string of length <= 4 over the cell edges and a cell-interior value of the partition induced by all range bounds, which includes all truncated codes, plus the empty string) judged on Decode, AppendCode(Decode), Decode(AppendCode) and once per set CodeSpaceRange(); distinct = distinct valid sets of at least two ranges (order-independent identity)")
+	r.Rule("a case is one set of code space ranges; for every set the reference model decides validity (NewCodec must agree) and, for valid sets, one execution = one input string (every string of length <= 4 over the cell edges and a cell-interior value of the partition induced by all range bounds, which includes all truncated codes, plus the empty string) judged on Decode, AppendCode(Decode), Decode(AppendCode) and once per set CodeSpaceRange(); distinct = distinct valid sets of at least two ranges (order-independent identity); spaces: named sets, all sets of <=3 ranges over small bound alphabets (S1..S4), and every non-empty subset of every ladder (S5: up to 15 ranges with pairwise different first bytes and pairwise different continuations, so that the lookup tree has up to ~100 nodes)")
 	r.Assume(
 		"reference model ref/codespace written from ISO 32000-2 9.7.6.2/9.7.6.3, cross-checked at start-up against a literal list-of-codes formulation on all <=3-range sets of a tiny alphabet",
 		"the codec's behaviour on a byte depends only on comparisons with range bounds, so the cell edges plus one interior value per cell represent all 256 values (checked for the reference model at start-up, assumed for the library)",
@@ -765,6 +769,10 @@ func Run(tier string) int {
 	r.Dim("ranges_2byte_bounds_00_10_7F_80_FF", len(r2))
 	r.Dim("ranges_3byte_bounds_00_80_FF", len(r3))
 	r.Dim("ranges_4byte_bounds_00_80_FF", len(r4))
+
+	// S5: every subset of every ladder (code spaces with many different
+	// sub-trees; see ladder.go).  Small, so it runs before the large spaces.
+	ck.runLadders()
 
 	// S1: all sets of 1, 2 and 3 ranges from the 1- and 2-byte lists
 	s1 := append(append([]codespace.Range{}, r1...), r2...)
